@@ -312,6 +312,9 @@ func genStatus(t *testing.T, out *hx.Out, budget int) {
 		{Nodes: 3, Count: 1, Prior: 1, PriorOn: 2, Strategy: "FILL"},
 		// the caller's DEADLINE expires in the middle of the deployment (not a cancel): markers must still go
 		{Nodes: 2, Count: 3, Prior: 1, Strategy: "AUTO", DeadlineMs: 600},
+		// many nodes / many instances (beyond a dozen of each)
+		{Nodes: 20, Count: 1, Prior: 0, Strategy: "EACH"},
+		{Nodes: 3, Count: 18, Prior: 2, Strategy: "AUTO", StartFail: []int{5, 13}},
 		// the deployment runs into its global timeout: the marker cleanup must still work
 		{Nodes: 2, Count: 2, Prior: 1, Strategy: "AUTO", TimeoutMs: 1500},
 	}
